@@ -139,6 +139,7 @@ P['C02'] = dict(
          thorough=dict(defines={'NCELLS': 4})),
     dict(name='H02D', src='C05_shift.cpp', covers=['placer built', 'end'], defines={'VCAP': 16, 'LEMON_POTLIM': 4096, 'LEMON_FLOWMAX': 3}, cfg=dict(fp='havoc', time_budget=100), ir_srcs=ALL_IR, native_srcs=ALL_IR, native_flags=['-llemon']),
     dict(name='H02R', src='C02_reorder.cpp', covers=['placer built', 'end'], defines={'VCAP': 16}, cfg=dict(fp='havoc', time_budget=300, merge=False), split=3, ir_srcs=ALL_IR, native_srcs=ALL_IR, native_flags=['-llemon']),
+    dict(name='H02W', src='C02_window.cpp', covers=['placer built', 'end'], defines={'VCAP': 40, 'LEMON_POTLIM': 4096, 'LEMON_FLOWMAX': 3}, cfg=dict(fp='havoc', time_budget=200, merge=False, max_steps=12000000), ir_srcs=ALL_IR, native_srcs=ALL_IR, native_flags=['-llemon']),
     dict(name='H02E', src='C02_e2e.cpp', tiers=('thorough',), covers=['placeDetailed ended', 'end'],
          defines={'VCAP': 10, 'NC': 3, 'YCELLS': 2, 'TALLCHOICES': 2, 'POLCHOICES': 2, 'ORICHOICES': 1, 'NNETS': 2, 'SHIFTCELLS': 0, 'REORDERCELLS': 0}, cfg=dict(fp='havoc'), split=3,
          ir_srcs=ALL_IR, native_srcs=ALL_IR, native_flags=['-llemon'],
